@@ -224,7 +224,7 @@ fn cred_fwd(ctx: &Ctx, acc: &Acc, mode: u8, ch: &mut Chooser) {
   let subj_c = fpt(ch, mode, "credentialSubject", 5, &[1, 2]);
   let types_c = fpt(ch, mode, "type", 3, &[1]);
   let ctx_c = fpt(ch, mode, "@context", 3, &[1, 2]);
-  let custom_c = fpt(ch, mode, "custom claims", 3, &[1]);
+  let custom_c = fpt(ch, mode, "custom claims", 4, &[1]);
 
   let mut dm = Map::new();
   dm.insert("@context".into(), match ctx_c {
@@ -309,7 +309,9 @@ fn cred_fwd(ctx: &Ctx, acc: &Acc, mode: u8, ch: &mut Chooser) {
   let custom: Option<Object> = match custom_c {
     0 => None,
     1 => Some(Object::from_json_value(json!({"x": 1, "y": {"z": [true]}})).expect("object")),
-    _ => Some(Object::new()),
+    2 => Some(Object::new()),
+    // a custom claim whose name collides with a registered claim: documented caller error, recorded only
+    _ => Some(Object::from_json_value(json!({"exp": 1})).expect("object")),
   };
 
   let case = Case { part: P_CRED_FWD, mode, seq: ch.seq() };
@@ -319,6 +321,27 @@ fn cred_fwd(ctx: &Ctx, acc: &Acc, mode: u8, ch: &mut Chooser) {
     Ok(c) => c,
     Err(e) => vx::ctx::machinery_exit(&format!("C07 generator produced a credential the data model rejects: {e}: {dm}")),
   };
+  if custom_c == 3 {
+    let label = match guard(|| cred.serialize_jwt(custom.clone())) {
+      Err(p) => {
+        ctx.violation(&format!("{E_SER}|{}", p.key()), &format!("{}: {dm}", p.msg), &case);
+        "panic".to_string()
+      }
+      Ok(Err(_)) => "serialize-refused".to_string(),
+      Ok(Ok(s)) => {
+        let jwt = token(&format!("{ISSUER}#k1"), &s);
+        match guard(|| w.cred_validator.verify_signature::<CoreDocument, Object>(&jwt, std::slice::from_ref(&w.issuer_doc), &JwsVerificationOptions::default())) {
+          Err(p) => {
+            ctx.violation(&format!("{E_BACK}|{}", p.key()), &format!("{}: {s}", p.msg), &case);
+            "panic".to_string()
+          }
+          Ok(Err(e)) => format!("serialised, rejected on the way back ({})", err_name(&e)),
+          Ok(Ok(d)) => format!("serialised, accepted back, credential {}", if d.credential == cred { "equal" } else { "differs" }),
+        }
+      }
+    };
+    return acc.outcome(format!("cred-fwd:custom claim named exp: {label} [open:colliding-custom-claim]"));
+  }
   // ---- forward
   let ser = match guard(|| cred.serialize_jwt(custom.clone())) {
     Err(p) => {
